@@ -22,3 +22,6 @@ func BeforeLock(mu *sync.Mutex) {}
 
 // BeforeRWLock 默认构建为空函数。
 func BeforeRWLock(mu *sync.RWMutex) {}
+
+// BeforeRLock 默认构建为空函数。
+func BeforeRLock(mu *sync.RWMutex) {}
